@@ -1,5 +1,6 @@
 """C15 - incremental validity index equals the batch index and gates assignments.
-Proof: props/C15.v (partial: recurrences on the sufficient statistics; gate).
+Proof: props/C15.v (invariant of the incremental state over any permitted
+add_sample / switch_label sequence => tracked value = batch index; gate).
 Correspondence: (i) iCVI_CH add_sample / switch_label / update sequences vs
 the Gallina model, which is itself compared with the batch index of the
 current labelled data with exact rational equality after every operation;
